@@ -215,7 +215,7 @@ def join_lemma(L):
     finally:
         L.ex.string_model = False
     L.witness(results[0], lambda o: o.kind == "return" and o.value.variant == "Ok", "join of a string element succeeds")
-    cex = lambda m: {"lines": ["eval [ \"ab\" ] concat", "stack", "eval drop [ \"ab\" #{ 1 \"t\" } with-tags ] concat", "stack"], "expect": [("no_panic",), ("stacks_equal", [0, 1])]}
+    cex = lambda m: {"lines": ["eval [ \"ab\" ] concat", "stack", "eval drop [ \"ab\" ^{ 1 \"t\" ^} ] concat", "stack"], "expect": [("no_panic",), ("stacks_equal", [0, 1])]}
     for o1 in results[0]:
         for o2 in results[1]:
             if o1.kind != "return" or o2.kind != "return":
